@@ -171,7 +171,8 @@ func RunNtlm(s *NtScript, tw *TraceWriter, rng *rand.Rand, conn *grpc.ClientConn
 				// the proof is computed from bob's name and password; the message will name `name`
 				cl.SetUserInfo("bob", NtBobPw, "")
 			} else {
-				cl.SetUserInfo(name, pass, "")
+				// (the domain a client names - none, a workgroup, a DNS domain - is part of what it proves with)
+				cl.SetUserInfo(name, pass, str(a, "dom", ""))
 			}
 			if err := cl.ProcessChallengeMessage(c.msg); err != nil {
 				return fmt.Errorf("client: %w", err)
